@@ -43,7 +43,7 @@ const OPTION_SETS: [&[&str]; 5] = [&[], &["--no-blocks"], &["--no-intrinsics", "
 
 pub fn n_commands(t: &Target) -> usize {
     if t.cmd == "truanm" {
-        7
+        9
     } else {
         5
     }
@@ -71,7 +71,26 @@ pub fn target_case(t: &Target, k: usize, corruption: &[crate::case::CorruptOp], 
     } else if k == 5 {
         Step::new(vec![s("truanm"), s("extract"), s("-g"), t.game.clone(), t.path.clone(), s("-o"), s("extracted")])
     } else {
-        inputs.push(Input::text("spec.txt", t.spec.as_deref().unwrap_or("")));
+        // 6: the file as image source of its own (pristine) decompiled script; 7, 8: the same script
+        // asking for another colour format, so that the source's textures are transcoded
+        let mut spec = t.spec.clone().unwrap_or_default();
+        if k > 6 {
+            let want = if k == 7 { "1" } else { "5" };
+            let mut out = String::new();
+            for line in spec.lines() {
+                if line.trim_start().starts_with("img_format:") {
+                    continue;
+                }
+                out.push_str(line);
+                out.push('\n');
+                // (every entry has a path; entries without data ignore the format)
+                if line.trim_start().starts_with("path:") {
+                    out.push_str(&format!("    img_format: {},\n", want));
+                }
+            }
+            spec = out;
+        }
+        inputs.push(Input::text("spec.txt", &spec));
         Step::new(vec![s("truanm"), s("compile"), s("-g"), t.game.clone(), s("spec.txt"), s("-o"), s(scen::OUT), s("-i"), t.path.clone()])
     };
     step.plan = plan.to_string();
@@ -230,7 +249,7 @@ pub fn run(ctx: &Ctx) -> CheckResult {
         }
         // command rotation: the j-th selected fault of a target goes to command (j + rotation)
         let rot = (seed % 7) as usize;
-        let with_cmd: Vec<(usize, Corruption)> = sel.into_iter().enumerate().map(|(j, c)| if t.cmd == "truanm" && in_thtx(c.off) { (5 + (j % 2), c) } else { (j + rot, c) }).collect();
+        let with_cmd: Vec<(usize, Corruption)> = sel.into_iter().enumerate().map(|(j, c)| if t.cmd == "truanm" && in_thtx(c.off) { (5 + (j % 4), c) } else { (j + rot, c) }).collect();
         for ch in with_cmd.chunks(48) {
             work.push((ti, ch.to_vec()));
         }
@@ -305,6 +324,28 @@ pub fn run(ctx: &Ctx) -> CheckResult {
                 for k in [5usize, 0] {
                     let mut c = target_case(t, k, &ops, "");
                     c.name = format!("{} [dword@{}={:02x}{:02x}{:02x}{:02x}]", c.name, off, val[0], val[1], val[2], val[3]);
+                    cfg_cases.push(c);
+                }
+            }
+        }
+    }
+    // the colour format field of every texture header set to each of the known formats (the data then
+    // has the wrong length for its dimensions: odd sizes for 16-bit formats, a quarter for 32-bit)
+    for t in targets.iter().filter(|t| t.bundled && t.cmd == "truanm") {
+        let mut pos = 0;
+        while let Some(i) = t.bytes[pos..].windows(4).position(|w| w == b"THTX") {
+            let at = pos + i;
+            pos = at + 4;
+            if at + 16 > t.bytes.len() {
+                break;
+            }
+            for fmt in [1u8, 3, 5, 7] {
+                if t.bytes[at + 6] == fmt {
+                    continue;
+                }
+                for k in [5usize, 6, 7, 8] {
+                    let mut c = target_case(t, k, &[crate::case::CorruptOp::Set { off: at + 6, val: fmt }], "");
+                    c.name = format!("{} [thtx@{} format={}]", c.name, at, fmt);
                     cfg_cases.push(c);
                 }
             }
